@@ -11,7 +11,8 @@ Request 1 (T-step):  `<slots> | <op> <op> …`
     `dref` drop the owner / one handle · `fin:<k>:<v>` finish the direct owner through the k-th public finisher
     (0 drop, 1 `Instrumented::emit`, 2 `discard_metrics`, 3 `into_parts`, 4 `split_metrics_to`, 5–7 `instrument` /
     `on_success` / `on_error` / `finalize_metrics` / `instrument_async` writing `plain := v`, then `emit`) ·
-    `ctor:<k>` (first op only) which constructor built the owner · `dfg` drop a free flush guard · `ddg` drop a force-flush guard ·
+    `ctor:<k>` (first op only) which constructor built the owner · `env:<e>:<w>` (before the first real op) where
+    drops / polls run — identity in the model · `dfg` drop a free flush guard · `ddg` drop a force-flush guard ·
     `open:<i>:<w|d>:<v0>` (`w` consumes a free flush guard) · `delay:<i>` (`delay_flush`, consumes a free
     flush guard) · `wb:<i>` first poll of `wait_for_data` · `wp` poll again · `wc` drop the future ·
     `gm:<i>:<v>` mutate through the slot guard · `gd:<i>` drop the slot guard · `gc:<i>` `parent_is_closed()`
@@ -77,6 +78,13 @@ def macroOp (s : St) (f : List String) : Option (St × String) :=
       if s.isHandle || k ≥ 8 then none
       else if k ≥ 5 then fin [.mutate v, .refDrop] fun _ => "-"
       else fin [.refDrop] fun _ => "-"
+    | _, _ => none
+  -- WHERE drops and polls run (plain thread, tokio task with fresh / exhausted cooperative budget, unconstrained,
+  -- multi-thread worker) is not a notion of the model: the property must hold regardless, and the oneshot read at
+  -- close is `try_recv` (value present iff sent).  `env:<e>:<w>` is therefore the identity.
+  | ["env", e, w] =>
+    match e.toNat?, w.toNat? with
+    | some e, some w => if e < 6 && w < 4 && s == init s.slots then some (s, "-") else none
     | _, _ => none
   -- `append_on_drop` and `append_and_close` build the same initial state
   | ["ctor", k] =>
